@@ -68,8 +68,12 @@ func c02Grammar(res *explore.Result, g *gram.Grammar, inputs [][]byte, keepGoing
 	b.Mon.BudgetCalls, b.Mon.BudgetRes = budgetCalls, budgetResults
 	gs := g.String()
 	violated := false
-	explosiveFrom := -1 // inputs are ordered by length: once the work meter trips at length l, longer inputs only get worse
-	for _, w := range inputs {
+	explosiveFrom := -1  // inputs are ordered by length: once the work meter trips at length l, longer inputs only get worse
+	var history []string // inputs parsed before with this grammar object
+	for wi, w := range inputs {
+		if wi > 0 && !(explosiveFrom >= 0 && len(inputs[wi-1]) >= explosiveFrom) {
+			history = append(history, string(inputs[wi-1]))
+		}
 		if violated && !keepGoing {
 			return // one violating input per grammar is enough (and a broken parser may not be safe to keep driving)
 		}
@@ -98,7 +102,7 @@ func c02Grammar(res *explore.Result, g *gram.Grammar, inputs [][]byte, keepGoing
 					res.Add("nontrivial", 1)
 				}
 				res.Outcome(fmt.Sprintf("max_active=%d,remaining=%d", b.Mon.MaxActive, len(w)-s))
-				c := Case{Placement: impl.Placement, Prior: b.MemoBefore, Grammar: gs, Input: string(w), Burn: burn}
+				c := Case{Placement: impl.Placement, Prior: b.MemoBefore, Grammar: gs, Input: string(w), Burn: burn, History: append([]string{}, history...)}
 				if burn > 0 && o.Budget != "" {
 					// these grammars have finitely many parses: running out of the work meter means the parse does not terminate
 					if !violated || keepGoing {
@@ -180,7 +184,11 @@ func c02Replay(raw json.RawMessage) *explore.Result {
 		return res
 	}
 	res.Notes = append(res.Notes, "case: "+c.String())
-	c02Grammar(res, g, [][]byte{[]byte(c.Input)}, true, c.Burn)
+	var inputs [][]byte
+	for _, h := range c.History {
+		inputs = append(inputs, []byte(h))
+	}
+	c02Grammar(res, g, append(inputs, []byte(c.Input)), true, c.Burn)
 	return res
 }
 
